@@ -220,7 +220,7 @@ fn sid(s: &str) -> Id { Id::Str(Some(s.to_string())) }
 
 impl Property for P {
     type Case = Case;
-    fn fixed(_tier: &str) -> Vec<Case> {
+    fn fixed(tier: &str) -> Vec<Case> {
         let h = |tns: u16, t: &str| el(0, Id::Num(33), false, true, tns, Some(t));
         let mut v = vec![
             Case::Path(vec![]),
@@ -282,6 +282,29 @@ impl Property for P {
             v.push(Case::Path(vec![el(1, sid(&"\u{e9}".repeat((n - 4) / 2)), false, true, 0, None), h(0, "b")]));
             v.push(Case::Str(format!("/{}", "a".repeat(n - 1))));
             v.push(Case::Str(format!("x{}", "\u{1F600}".repeat(n / 4))));
+        }
+        if tier == "thorough" {
+            // exhaustive: every string of length <= 4 over { < > # ! & : 0 a }, alone and after '<'
+            // (the bracket alternative of the element pattern against the regex crate), and every
+            // string of length <= 3 over { / . < & : 1 b } after '/'
+            let al = ['<', '>', '#', '!', '&', ':', '0', 'a'];
+            let mut words: Vec<String> = vec![String::new()];
+            let mut frontier: Vec<String> = vec![String::new()];
+            for _ in 0..4 {
+                let mut next = Vec::new();
+                for w in &frontier { for c in al { let mut x = w.clone(); x.push(c); next.push(x); } }
+                words.extend(next.iter().cloned());
+                frontier = next;
+            }
+            for w in &words { v.push(Case::Str(w.clone())); v.push(Case::Str(format!("<{}", w))); }
+            let al2 = ['/', '.', '<', '&', ':', '1', 'b'];
+            let mut frontier: Vec<String> = vec![String::new()];
+            for _ in 0..3 {
+                let mut next = Vec::new();
+                for w in &frontier { for c in al2 { let mut x = w.clone(); x.push(c); next.push(x); } }
+                for w in &next { v.push(Case::Str(format!("/{}", w))); }
+                frontier = next;
+            }
         }
         v
     }
